@@ -43,6 +43,8 @@ def fn_units():
         out.append(method_unit('C05', A.current_cond, [], on='cpu', spec=cc, contracts=base, assume=pre, fixed=fixed, case=iset))
         out.append(method_unit('C05', A.condition_passed, [], on='cpu', spec=cp, contracts=base, assume=pre, fixed=fixed, case=iset,
                                merge_calls={A.current_cond}))
+    for u in out:
+        u.props = ['C05', 'C08']        # C08 (each instruction of an IT block runs under the block's condition) depends on them
     return out
 
 
